@@ -236,6 +236,14 @@ def number(draw, d):
             return ['count', '('] + inner + [')', '*', '0', '+', draw(st.sampled_from(['position', 'last'])), '(', ')']
         return draw(st.sampled_from([['position', '(', ')'], ['last', '(', ')']]))
     if k == 4:
+        if draw(st.sampled_from([0, 0, 1])):
+            # two node-sets converted to numbers one after the other by function calls (arguments are evaluated to objects, which are
+            # recycled): the second conversion must not see anything cached for the first
+            ps = [['@i'], ['..', '/', '@i'], ['*', '/', '@i'], ['(', '//', '@i', ')', '[', '1', ']'], ['(', '//', '@i', ')', '[', 'last', '(', ')', ']'],
+                  ['//', '*', '[', '@i', ']', '[', '2', ']', '/', '@i'], ['preceding', '::', '*', '[', '@i', ']', '[', '1', ']', '/', '@i'], ['following', '::', '*', '/', '@i']]
+            f1 = draw(st.sampled_from(['number', 'floor', 'round', 'ceiling', 'sum']))
+            f2 = draw(st.sampled_from(['number', 'floor', 'round', 'sum']))
+            return [f1, '('] + draw(st.sampled_from(ps)) + [')', draw(st.sampled_from(['*', '+', '-'])), '10', '+', f2, '('] + draw(st.sampled_from(ps)) + [')']
         return ['count', '('] + draw(nodeset(max(d - 1, 0))) + [')']
     if k == 5:
         return ['string-length', '('] + (draw(string(max(d - 1, 0))) if draw(st.booleans()) else []) + [')']
@@ -275,7 +283,9 @@ def sarg(draw, d):
     """an argument where a string is expected: usually a string expression, sometimes an expression of another type (the
     argument is converted as if by string(): XPath 3.2) - the implementation's shortcuts must not leak the original type"""
     if draw(st.sampled_from([0, 0, 0, 1])):
-        return draw(st.one_of(number(d), boolean(d), nodeset(d)))
+        # (a node-set argument is converted through its FIRST node in document order, which is unspecified among the attributes of one
+        # element: only node-sets without that choice)
+        return draw(st.one_of(number(d), boolean(d), st.sampled_from([['.'], ['..'], ['*'], ['b'], ['@i'], ['//', 'b'], ['text', '(', ')'], ['//', '*', '[', '@i', ']'], ['$ns1']])))
     return draw(string(d))
 
 
